@@ -114,7 +114,7 @@ fn set_mtime(path: &std::path::Path, secs: i64) -> bool {
 }
 
 fn run(ctx: &Ctx, rep: &Report) {
-    let win: i64 = ctx.tier.pick(100_000, 2_000_000);
+    let win: i64 = ctx.tier.pick(100_000, 20_000_000);
     let centers = [0i64, 1 << 31, TWO32];
     // 1. every second in the windows
     for c in centers {
@@ -180,7 +180,7 @@ fn run(ctx: &Ctx, rep: &Report) {
         rep.nontrivial_many(hs);
     }
     // 4. seeded random instants + ordering on sorted samples
-    let nrand: u64 = ctx.tier.pick(400_000, 20_000_000);
+    let nrand: u64 = ctx.tier.pick(400_000, 300_000_000);
     let chunk = 2000u64;
     par_for(ctx.threads, nrand / chunk, 1, |k| {
         let mut rng = Rng::for_case(ctx.seed, "C20-random", k);
